@@ -211,8 +211,15 @@ def injected(draw, rule=None):
             ncand = len(cand)
             pos = draw(st.integers(0, len(cand) - 1))
             loop = [v.upper() for v in S.expr_vars(e)]
-            loop[loop.index(cand[pos])] = trank
-            spec["loop_order"] = {out: list(draw(st.permutations(loop)))}
+            if len(c["affine"]) == 1 and draw(st.integers(0, 3)) == 0:
+                # over-specified: the tensor's own rank is looped IN ADDITION to every index variable of its equation, so one
+                # of them - in particular the output's - would have to be obtained by projection
+                loop.insert(draw(st.integers(0, len(loop))), trank)
+                pos = 1
+                spec["loop_order"] = {out: loop if draw(st.booleans()) else list(draw(st.permutations(loop)))}
+            else:
+                loop[loop.index(cand[pos])] = trank
+                spec["loop_order"] = {out: list(draw(st.permutations(loop)))}
         else:
             # flatten a rank used in index math (the tensor's own rank or an index variable of the equation) with another rank
             trank, terms = c["affine"][draw(st.integers(0, len(c["affine"]) - 1))]
